@@ -208,9 +208,9 @@ DecFixed(t, b, p) ==            \* caller guarantees the bytes are there
 ReadLen(b, p, lw) == CASE lw = 1 -> b[p] [] lw = 2 -> U16(b, p) [] lw = 4 -> (IF FitsInt31(b, p) THEN U32(b, p) ELSE 2147483647)
 
 RECURSIVE DecR(_, _, _)
-RECURSIVE DecRep(_, _, _, _, _)      \* (el, n, b, p, first): n elements one after another
+RECURSIVE DecRep(_, _, _, _, _)      \* (el, n, b, p, p0): n elements one after another; p0 = where the whole value starts
 RECURSIVE DecAll(_, _, _, _)         \* (el, b, p, acc): elements until the buffer ends
-RECURSIVE DecSeq(_, _, _, _)         \* (members, i, b, p): struct members from index i
+RECURSIVE DecSeq(_, _, _, _, _)      \* (members, i, b, p, p0): struct members from index i; p0 = where the struct starts
 
 DecR(t, b, p) ==
   IF FixedWidth(t) > 0
@@ -248,14 +248,14 @@ DecR(t, b, p) ==
          IF t.n = -1 THEN (IF Avail(b, p) <= 0 THEN Fail("empty", p) ELSE Ok([b |-> SubSeq(b, p, Len(b))], Len(b) + 1))
          ELSE LET st == Need(b, p, t.n) IN IF st = "ok" THEN Ok([b |-> SubSeq(b, p, p + t.n - 1)], p + t.n) ELSE Fail(st, p)
     [] t.k = "arr" ->
-         IF t.lk = "fixed" THEN DecRep(t.el, t.n, b, p, TRUE)
+         IF t.lk = "fixed" THEN DecRep(t.el, t.n, b, p, p)
          ELSE IF t.lk = "derived"
               THEN LET r == DecR(t.lt, b, p) IN
                    IF r.st # "ok" THEN Fail(r.st, p)
                    ELSE IF ~BigIsSmall(r.val.i) THEN Fail("short", p)
-                   ELSE DecRep(t.el, BigToSmall(r.val.i), b, r.p, FALSE)
+                   ELSE DecRep(t.el, BigToSmall(r.val.i), b, r.p, -1)
               ELSE DecAll(t.el, b, p, <<>>)
-    [] t.k = "struct" -> DecSeq(t.m, 1, b, p)
+    [] t.k = "struct" -> DecSeq(t.m, 1, b, p, p)
     [] t.k = "structtag" ->
          IF Avail(b, p) <= 0 THEN Fail("empty", p)
          ELSE IF Avail(b, p) < t.size THEN Fail("inner", p)
@@ -269,8 +269,10 @@ DecR(t, b, p) ==
                                                                IN <<MkS(t.bits[k].n), MkB(BitOf(win[t.bits[k].off + 1], t.bits[k].bit) = 1)>>]),
                          p + t.size)
 
-DecRep(el, n, b, p, first) ==
-    LET w == FixedWidth(el) IN
+\* a failure "empty" stays "empty" only while nothing of the enclosing value has been consumed
+AtStart(st, p, p0) == IF st = "empty" /\ p # p0 THEN "inner" ELSE st
+DecRep(el, n, b, p, p0) ==
+    LET w == FixedWidth(el)  first == p = p0 IN
     IF w > 0
     THEN (IF Avail(b, p) >= n * w
           THEN LET vals == [i \in 1..n |-> DecFixed(el, b, p + (i - 1) * w)]
@@ -280,8 +282,8 @@ DecRep(el, n, b, p, first) ==
                IN Fail(st, p))
     ELSE IF n = 0 THEN Ok(MkL(<<>>), p)
     ELSE LET r == DecR(el, b, p) IN
-         IF r.st # "ok" THEN Fail(IF first THEN r.st ELSE Later(r.st), p)
-         ELSE LET rest == DecRep(el, n - 1, b, r.p, FALSE) IN
+         IF r.st # "ok" THEN Fail(AtStart(r.st, p, p0), p)
+         ELSE LET rest == DecRep(el, n - 1, b, r.p, p0) IN
               IF rest.st # "ok" THEN Fail(rest.st, p) ELSE Ok(MkL(<<r.val>> \o rest.val.l), rest.p)
 
 DecAll(el, b, p, acc) ==
@@ -298,11 +300,11 @@ DecAll(el, b, p, acc) ==
          ELSE IF r.p <= p THEN Fail("malformed", p)            \* zero-width element: outside the domain
          ELSE DecAll(el, b, r.p, Append(acc, r.val))
 
-DecSeq(m, i, b, p) ==
+DecSeq(m, i, b, p, p0) ==
     IF i > Len(m) THEN Ok(MkD(<<>>), p)
     ELSE LET r == DecR(m[i].t, b, p) IN
-         IF r.st # "ok" THEN Fail(IF i = 1 THEN r.st ELSE Later(r.st), p)
-         ELSE LET rest == DecSeq(m, i + 1, b, r.p) IN
+         IF r.st # "ok" THEN Fail(AtStart(r.st, p, p0), p)
+         ELSE LET rest == DecSeq(m, i + 1, b, r.p, p0) IN
               IF rest.st # "ok" THEN Fail(rest.st, p)
               ELSE Ok(MkD((IF m[i].n = <<>> THEN <<>> ELSE <<<<MkS(m[i].n), r.val>>>>) \o rest.val.d), rest.p)
 
